@@ -23,6 +23,18 @@ def build(tier: str, rng: random.Random):
     off = {**base, "convon": False}
     for o in calcheck.sample_scripts(ops, 30 if tier == "quick" else 150, rng):
         scripts.append(calcheck.to_script(o, off, seed=rng.randrange(1, 10**6), verbose=rng.random() < 0.5, saving=rng.random() < 0.5))
+    # long runs on a declared search space of 16 points only (samplers that keep proposing are the user's business: the number of
+    # batches is the requested one, with or without a precision, also once more points were sampled than the grid holds)
+    for k in range(6 if tier == "quick" else 40):
+        conv = k % 2 == 1
+        lu = [{"cls": "A", "bs": 3}, {"cls": "B", "bs": rng.choice([2, 3])}]
+        calls = [["call", rng.randint(3, 5)], ["call", rng.randint(3, 5)]] + ([["call", 2]] if k % 3 == 0 else [])
+        nloss = sum(c[1] for c in calls) * 3
+        sc = calcheck.to_script(calls + [["loss", rng.choice([6, 3, 17])] for _ in range(nloss)],
+                                {**base, "lineup": lu, "convon": conv, "E": 1}, seed=rng.randrange(1, 10**6),
+                                verbose=rng.random() < 0.5, saving=rng.random() < 0.5, prec=rng.choice(precs))
+        sc["cfg"]["tinyspace"] = True
+        scripts.append(sc)
     return scripts, len(ops)
 
 
